@@ -1,8 +1,19 @@
 import H2V.Lemmas.ConnDrainPRead
+import H2V.Lemmas.ConnDrainPLoop
+import H2V.Lemmas.ConnDrainPTurn
+import H2V.Lemmas.ConnDrainPParked
+import H2V.Lemmas.ConnDrainPReach
+import H2V.Lemmas.ConnDrainPFindings
 /-
   C06 (progress, no lost wake-up) — the gaps left open by `H2V/Props/C06.lean` (ConnWakeP family):
   what a completed poll of the connection leaves behind, and who is woken when.
   Property theorems only; lemmas in `H2V/Lemmas/ConnDrainP*.lean` (see ConnDrainPNOTES.md).
+
+  Vocabulary.  `PInv s` = the invariants the proofs need of a stream-layer state `s`: the send-flow safety
+  invariant and `u32` requests of the ConnFlowP family (`SafeInv`, `ReqOk`) and queue ↔ link-flag consistency
+  of `pending_send` / `pending_capacity` (ConnCountsP's `QOK`).  They hold in every reachable state in which no
+  `assert!` of the real code has fired (`drain_invariants_hold_when_reachable`).  `RangeOK s` = the connection
+  receive window and its available part are `i32` values (ConnRecvP: every reachable state).
 -/
 namespace H2V.Props.C06Drain
 open H2V H2V.Model H2V.Model.Conn H2V.Lemmas.ConnDrainP
@@ -21,6 +32,205 @@ theorem poll_next_pending_registers_read_waker (fuel : Nat) (c c' : Codec) (tag 
 example : (match (pollNext 2 ({} : Codec) "c").2 with | .pending => true | _ => false) = true ∧
     (pollNext 2 ({} : Codec) "c").1.io.readWaker = some "c" := by decide
 
+/-- **The invariants used below hold in every reachable state.**  For a stream-layer state reachable through
+    the `Streams` API from a fresh connection — in the sense of ConnFlowP (`Reach`: any sequence of the 44 API
+    functions, decoder-bounded increments) and of ConnCountsP (`Reach`) — in which the model recorded no
+    `assert!`/dangling-key panic, `PInv` holds. -/
+theorem drain_invariants_hold_when_reachable (s : Streams) (h1 : H2V.Lemmas.ConnFlowP.Reach s)
+    (h2 : H2V.Lemmas.ConnCountsP.Reach s) (hp : s.panicked = none) : PInv s :=
+  ⟨h1.safe, h1.reqOk, h2.qok hp _ (by decide), h2.qok hp _ (by decide)⟩
+
+/-- a state with one request queued: `send_request` on a fresh client -/
+def exReq : Streams := ((Conn.init {}).streams.sendRequest false [] true none).1
+
+theorem exReq_pinv : PInv exReq :=
+  drain_invariants_hold_when_reachable _
+    (.sendRequest _ _ _ _ (.init ⟨rfl, rfl⟩))
+    (.step (.init (.client {} (by decide))) (.sendRequest _ _ _ _ _)) (by decide)
+
+example : exReq.prio.pendingOpen = [0] ∧ RangeOK exReq := ⟨by decide, by unfold RangeOK; decide⟩
+
+/-- **The model's fuel for `pop_frame` suffices** (no fuel hypothesis is needed below).  In a state satisfying
+    `PInv`, `Prioritize::pop_frame` — run with the fuel `popFrameFuel s` that `buffer_pending` hands it —
+    answers `None` only because `pending_send` is empty: the model's loop never stops early where the real,
+    unbounded loop would go on.  Proof: a measure (frames queued + 2 per stream linked in `pending_send` whose
+    visit does not return at once + 2 per stream linked in `pending_capacity`) drops at every `continue`,
+    including the `continue` after `reclaim_all_capacity`, which can move streams INTO `pending_send`.
+    (With the earlier fuel `2·len+2` this was false: dead PUSH_PROMISE frames, see ConnDrainPNOTES.) -/
+theorem pop_frame_fuel_suffices (s s' : Streams) (maxLen : Nat) (h : PInv s)
+    (hr : Streams.popFrame (Streams.popFrameFuel s) s maxLen = (s', none)) (hp : s'.panicked = none) :
+    s'.prio.pendingSend = [] :=
+  popFrame_none_drains h hr hp
+
+example : (Streams.popFrame (Streams.popFrameFuel exReq) exReq 16384).2 = none := by decide
+
+/-- **`Prioritize::buffer_pending` answers "complete" only with `pending_send` empty.**  Whatever the writer
+    (its capacity is re-checked before every frame), from every state satisfying `PInv`: when the loop ends
+    with `BufferStatus::Complete`, no stream is left scheduled for sending, and `PInv` still holds. -/
+theorem buffer_pending_complete_means_nothing_to_send (n : Nat) (s s' : Streams) (w w' : Writer) (h : PInv s)
+    (hr : Streams.prioBufferPendingLoop n s w = (s', w', .complete)) (hp : s'.panicked = none) :
+    s'.prio.pendingSend = [] ∧ PInv s' :=
+  prioLoop_complete n s w s' w' h hr hp
+
+/-- **The connection's poll drains everything that can be written.**  `Streams::poll_complete` answers `Ready`
+    only in a state in which
+      * `prioritize.pending_send` is empty (no stream is scheduled for sending),
+      * `pending_window_updates` is empty (no stream WINDOW_UPDATE owed),
+      * `flow.unclaimed_capacity()` of the connection is `None` (no connection WINDOW_UPDATE owed),
+      * the codec's write buffer is flushed (`next = None`, buffer empty),
+      * the polling task is registered in `Actions.task` (so every later handle operation that queues work
+        wakes it: `H2V.Props.C06`, statements (D)),
+    for every writer / transport behaviour (partial writes, byte budgets), every fuel, every state satisfying
+    `PInv` and `RangeOK`; and `PInv`, `RangeOK` hold again afterwards.  `hp`: the model recorded no panic.
+    NOT claimed here: `pending_open` (see `pending_open_leftover_counterexample`) and `pending_capacity`
+    (ConnDrainPNOTES). -/
+theorem poll_complete_ready_means_drained (n : Nat) (s s' : Streams) (w w' : Writer) (io io' : Tio) (tag : String)
+    (h : PInv s) (hr : RangeOK s)
+    (hc : Streams.pollComplete n s w io tag = (s', w', io', .ready)) (hp : s'.panicked = none) :
+    Drained tag s' w' ∧ PInv s' ∧ RangeOK s' :=
+  pollComplete_ready_drained n s w io tag s' w' io' h hr hc hp
+
+/-- non-vacuity: polling the state with the queued request writes the HEADERS frame and ends `Ready` -/
+example : (Streams.pollComplete 5 exReq (Conn.init {}).codec.w (Conn.init {}).codec.io "c").2.2.2 = .ready ∧
+    (Streams.pollComplete 5 exReq (Conn.init {}).codec.w (Conn.init {}).codec.io "c").1.panicked = none ∧
+    (Streams.pollComplete 5 exReq (Conn.init {}).codec.w (Conn.init {}).codec.io "c").2.2.1.tx.length = 3 := by
+  decide
+
+/-- **`Connection::poll_ready`: `Pending` ⇒ the write waker is registered; `Ready(Ok)` ⇒ nothing of its slots is
+    owed.**  `poll_ready` (pending PONG, pending PING, SETTINGS ACK + local SETTINGS, pending refusal) answers
+    `Pending` only after the transport took the connection task's waker for writing (`WriteParked`), and
+    `Ready(Ok)` only with `pending_pong = None`, the PING slot idle (shutdown PING sent; user PING sent or the
+    connection task registered in `ping_task`), `settings.remote = None`, no local SETTINGS left to send, and
+    `refused = None`.  `hc`: the write buffer's capacity is at least `chain_threshold + 9` (`CapOK`: true from
+    `Conn.init` on and kept by everything that gets the writer — lemmas `CapOK.*`). -/
+theorem poll_ready_pending_parked_ready_done (c : Conn) :
+    (c.pollReady.2 = .pending → CapOK c.codec.w → WriteParked c.pollReady.1) ∧
+    (c.pollReady.2 = .ok → ReadyDone c.pollReady.1) :=
+  ⟨(pollReady_spec c).2.2.1, (pollReady_spec c).2.2.2⟩
+
+example : CapOK (Conn.init {}).codec.w ∧ (Conn.init {}).pollReady.2 matches .ok := by
+  refine ⟨by unfold CapOK; decide, by decide⟩
+
+/-- **`Connection::poll2` answers `Pending` only with the connection task parked**: on the transport's write
+    waker (some `poll_ready` step or the GOAWAY could not be buffered), or on the read waker with the GOAWAY
+    slot and every slot of `poll_ready` empty — for every input, fuel and state with a sane write buffer. -/
+theorem poll2_pending_is_parked (n : Nat) (c c' : Conn) (hc : CapOK c.codec.w)
+    (h : Conn.poll2 n c = (c', .pending)) (hp : c'.streams.panicked = none) :
+    ConnParked c' ∧ CapOK c'.codec.w ∧ c'.cx = c.cx :=
+  poll2_pending n c c' hc h hp
+
+example : (Conn.poll2 10 (Conn.init {})).2 matches .pending := by decide
+
+/-- **One turn of `Connection::poll` (state `Open`) leaves the connection task parked and nothing unwritten.**
+    When `poll2` answered `Pending` (state `c1`) and `poll_complete` then answers `Pending` or `Ready`, the
+    connection task is parked on the write waker, or (`Settled`) on the read waker AND in `Actions.task` with:
+    GOAWAY / PONG / PING / SETTINGS / refusal slots empty, `pending_send` empty, no stream or connection
+    WINDOW_UPDATE owed, the write buffer flushed.  This closes the "Pending ⇒ parked" statement (D) of
+    `H2V.Props.C06` with "… and nothing writable is left".  `hi`/`hr`: `PInv`/`RangeOK` when `poll_complete`
+    starts (hold in every reachable state, see `drain_invariants_hold_when_reachable`). -/
+theorem open_turn_parks_connection_task (n m : Nat) (c c1 : Conn) (s' : Streams) (w' : Writer) (io' : Tio) (r : WRes)
+    (hc : CapOK c.codec.w) (h2 : Conn.poll2Loop n c = (c1, .pending))
+    (hi : PInv c1.streams) (hr : RangeOK c1.streams)
+    (hpc : Streams.pollComplete m c1.streams c1.codec.w c1.codec.io c1.cx = (s', w', io', r))
+    (hne : ∀ k, r ≠ .err k) (hp : s'.panicked = none) :
+    PollParked { c1 with streams := s', codec := { c1.codec with w := w', io := io' } } ∧ CapOK w' :=
+  open_turn n m c c1 s' w' io' r hc h2 hi hr hpc hne hp
+
+/-- non-vacuity: the first poll of a fresh client (`poll2` parks on the read waker, `poll_complete` flushes the
+    SETTINGS frame and answers `Ready`) -/
+example : (Conn.poll2Loop 10 (Conn.init {})).2 matches .pending ∧
+    (Streams.pollComplete 10 (Conn.poll2Loop 10 (Conn.init {})).1.streams (Conn.poll2Loop 10 (Conn.init {})).1.codec.w
+      (Conn.poll2Loop 10 (Conn.init {})).1.codec.io "c").2.2.2 = .ready := by decide
+
+/-- **The connection invariant holds for fresh connections and is kept by `Connection::poll`.**  `CInv c`: the
+    write buffer is sane (`CapOK`), the stream layer is reachable in the sense of the three lemma families used
+    here (`SReach`: ConnFlowP, ConnCountsP, ConnRecvP — hence `PInv` and `RangeOK` whenever no panic was recorded),
+    a SETTINGS frame remembered in `settings.remote` came out of the decoder (INITIAL_WINDOW_SIZE ≤ 2^31-1), local
+    SETTINGS carry a window ≤ 2^31-1.  It holds for `Conn.init g` / `Conn.initServer g …` (builder options h2
+    accepts) and after `proto::Connection::poll` / `client::Connection::poll`, whatever the transport delivers
+    (every frame `poll_next` yields satisfies the decoder's bounds). -/
+theorem connection_invariant_initially_and_kept (g : Conn.Cfg) (ecp : Bool) (pf : Bytes) (n : Nat) (c : Conn)
+    (hodd : g.firstId % 2 = 1) (hcws : ∀ sz, g.cws = some sz → sz ≤ 2147483647)
+    (hiws : ∀ t, g.iws = some t → t ≤ 2147483647) :
+    CInv (Conn.init g) ∧ CInv (Conn.initServer g ecp pf) ∧
+    (CInv c → CInv (Conn.protoPoll n c).1 ∧ CInv (Conn.clientPoll n c).1) :=
+  ⟨cinv_init g hodd hcws hiws, cinv_initServer g ecp pf hcws hiws, fun h => ⟨CInv.protoPoll n h, h.clientPoll n⟩⟩
+
+example : ({} : Conn.Cfg).firstId % 2 = 1 ∧ (∀ sz, ({} : Conn.Cfg).cws = some sz → sz ≤ 2147483647) ∧
+    (∀ t, ({} : Conn.Cfg).iws = some t → t ≤ 2147483647) :=
+  ⟨by decide, (by intro _ h; cases h), (by intro _ h; cases h)⟩
+
+/-- **`Connection::poll` answers `Pending` only with the connection task parked and nothing writable left** —
+    the end-to-end form of target 1 and of statement (D) of `H2V.Props.C06`, for the whole state machine of
+    `proto::Connection::poll` (all turns of its loop: `poll2`, `handle_poll2_result`, `poll_complete`, the idle
+    GOAWAY, `Closing`) and for `client::Connection::poll`, from ANY state satisfying `CInv` (in particular from
+    every state reached from `Conn.init` / `Conn.initServer` by polls, see above), for every input, transport
+    behaviour and fuel.  `PollParked c'` = the task's waker is held by the transport's write half (the codec could
+    not take or flush more), or (`Settled`) it is held by the read half AND `Actions.task`, with: no GOAWAY / PONG /
+    SETTINGS ACK / local SETTINGS / refusal owed, the PING slot idle, `pending_send` empty, no stream or
+    connection WINDOW_UPDATE owed, the write buffer flushed.  `hp`: the model recorded no `assert!`/panic.
+    No fuel hypothesis, no writer hypothesis. -/
+theorem connection_poll_pending_means_parked_and_drained (n : Nat) (c c' : Conn) (hi : CInv c)
+    (hp : c'.streams.panicked = none) :
+    (Conn.protoPoll n c = (c', .pending) → PollParked c') ∧
+    (Conn.clientPoll n c = (c', .pending) → PollParked c') :=
+  ⟨fun h => protoPoll_pending_parked n c c' hi h hp, fun h => clientPoll_pending_parked n c c' hi h hp⟩
+
+/-- non-vacuity: the first poll of a fresh client is `Pending` (and no panic is recorded) -/
+example : (Conn.clientPoll 10 (Conn.init {})).2 matches .pending ∧
+    (Conn.clientPoll 10 (Conn.init {})).1.streams.panicked = none := by decide
+
+/-- **FINDING (benign): a stream can be left in `pending_open` although a slot is free after a completed poll.**
+    State reached from `Conn.init {}` through the model API (`PO.s1 … PO.s8`, see ConnDrainPFindings.lean; same
+    digests on the real code): MAX_CONCURRENT_STREAMS = 1, three requests (A open, B and C in `pending_open`),
+    GOAWAY(last_stream_id = 1) fails B and C but leaves them linked in `pending_open`, the response closes A.
+    The next `poll_complete` answers `Ready` with `pending_open = [C]` and `can_inc_num_send_streams()`:
+    `pop_pending_open` opened the dead stream B, `pop_frame` found its queue empty and `transition_after` gave
+    the slot back AFTER `pop_pending_open` had been evaluated.  So the clause "`pending_open` is empty or no slot
+    is free" of target 1 is FALSE in a reachable state; it is harmless here: every stream left behind has
+    already been failed (handles woken with the error) and the connection is going away. -/
+theorem pending_open_leftover_counterexample :
+    PO.p8.2.2.2 = .ready ∧ PO.s8.panicked = none ∧ PO.s8.prio.pendingOpen = [2] ∧
+    PO.s8.counts.canIncNumSendStreams = true ∧ PO.s8.prio.pendingSend = [] ∧
+    PO.s7.actions.connError.isSome = true :=
+  ⟨PO.leftover.1, PO.leftover.2.1, PO.leftover.2.2.1, PO.leftover.2.2.2.1, PO.leftover.2.2.2.2, PO.step7.2.2⟩
+
+/-- **No lost wake-up for the connection task, in every history (target 3, poll half).**  `DReach c`: `c` is reached
+    from a fresh client or server connection (builder options h2 accepts) by any sequence of: polls of the
+    connection with any fuel, calls of the user-side handles on the stream layer with ANY arguments (`HandleStep`:
+    `send_request`, `send_data`, `send_trailers`, `send_reset`, `reserve_capacity`, `release_capacity`, the
+    `poll_*` functions, clone/drop of handles, `send_response`, `push_request`, …), arbitrary transport events
+    (input, budgets, errors, wakers taken), a change of the polling task, `set_target_window_size` /
+    `set_initial_window_size` (≤ 2^31-1), the ping handle's calls, graceful / abrupt shutdown.  In every such
+    state the invariant `CInv` holds, and `Connection::poll` answers `Pending` only with `PollParked`: the task's
+    waker is held by the transport's write half, or by its read half AND `Actions.task` with nothing writable
+    left.  Together with `H2V.Props.C06` (every handle operation that queues work takes and wakes `Actions.task`;
+    the transport wakes its read/write waker when it can make progress) this is the safety form of "queued work
+    is never stranded": whatever happened before, each `Pending` re-establishes the parked-and-drained state from
+    scratch.  Only hypothesis: the model recorded no `assert!`/panic. -/
+theorem no_lost_wakeup_for_connection_task_in_every_history (n : Nat) (c c' : Conn) (h : DReach c)
+    (hp : c'.streams.panicked = none) :
+    CInv c ∧ (Conn.protoPoll n c = (c', .pending) → PollParked c') ∧
+    (Conn.clientPoll n c = (c', .pending) → PollParked c') :=
+  ⟨h.cinv, (dreach_poll_pending_parked n h hp).1, (dreach_poll_pending_parked n h hp).2⟩
+
+/-- non-vacuity: a client that was polled, got a request through a handle, and is polled again -/
+example : DReach { (Conn.clientPoll 10 (Conn.init {})).1 with
+    streams := ((Conn.clientPoll 10 (Conn.init {})).1.streams.sendRequest false [] true none).1 } :=
+  .handle (.clientPoll 10 (.client {} (by decide) (by intro _ h; cases h) (by intro _ h; cases h)))
+    (.sendRequest _ false [] true none)
+
 end H2V.Props.C06Drain
 
 #print axioms H2V.Props.C06Drain.poll_next_pending_registers_read_waker
+#print axioms H2V.Props.C06Drain.drain_invariants_hold_when_reachable
+#print axioms H2V.Props.C06Drain.pop_frame_fuel_suffices
+#print axioms H2V.Props.C06Drain.buffer_pending_complete_means_nothing_to_send
+#print axioms H2V.Props.C06Drain.poll_complete_ready_means_drained
+#print axioms H2V.Props.C06Drain.poll_ready_pending_parked_ready_done
+#print axioms H2V.Props.C06Drain.poll2_pending_is_parked
+#print axioms H2V.Props.C06Drain.open_turn_parks_connection_task
+#print axioms H2V.Props.C06Drain.connection_invariant_initially_and_kept
+#print axioms H2V.Props.C06Drain.connection_poll_pending_means_parked_and_drained
+#print axioms H2V.Props.C06Drain.pending_open_leftover_counterexample
+#print axioms H2V.Props.C06Drain.no_lost_wakeup_for_connection_task_in_every_history
